@@ -333,3 +333,14 @@ spec("C03",
                   "atan2 with both arguments zero is excluded as stated by the property",
                   "sign of a zero bound is not compared (f32::min/max return either zero)"],
      )
+
+spec("C02",
+     cmd="c02", count=dict(quick=600, thorough=12000),
+     vo_targets=["props/C02.vo"],
+     level="proof",
+     rule="random DAGs (1-60 ops, every opcode, 0-5 free variables; chains and wide DAGs so that 12 JIT registers spill and libm calls interleave with live registers) with every non-constant node exported (last 40); 40 points per case drawn from tame values / 40% specials (NaN, +-0, +-inf, denormals, f32::MAX, pi multiples) / mixed magnitudes; JIT point evaluator and JIT float-slice evaluator for EVERY slice length 0..=35 (SIMD width 8) against the interpreter, caller slices placed against PROT_NONE guard pages (alternately at the start and at the end); child processes; distinct_nontrivial = distinct arenas",
+     classify=classify_default,
+     assumptions=["comparison rule = the property's: bit-identical, NaN matches NaN, min/max of two equal zeros may differ in sign (such points are then skipped downstream)",
+                  "points where a NaN reaches rand/mix are skipped (NaN payloads feed the hash)",
+                  "the x86_64 instruction sequences themselves are covered by correspondence, not by proof; aarch64 cannot run here"],
+     )
